@@ -1097,10 +1097,13 @@ class CircuitTemplate(AbstractBaseTemplate):
         hierarchies.
 
         """
-        edges = self.edges
+        # work on copies: neither the edge list of this template nor the attribute dictionaries of the sub-circuits'
+        # edges may be altered by collecting them
+        edges = list(self.edges)
         for c_scope, c in self.circuits.items():
             edges_tmp = c.collect_edges()
             for svar, tvar, template, edge_dict in edges_tmp:
+                edge_dict = dict(edge_dict)
                 for key, val in edge_dict.copy().items():
                     if type(val) is str and val != 'source':
                         edge_dict[key] = f"{c_scope}/{val}"
